@@ -177,6 +177,20 @@ def _t_forname(line, arg=None):
     return re.sub(r'^(\s*)for _ in ', r'\1for verif_it in ', line)
 
 
+R10_RE = re.compile(r'^(\s*)for (\w+) in ([^.{]+?)\.\.([^.={][^{]*?) \{\s*$')
+R10_OUT = re.compile(r'^let mut verif_it_(\w+) = (.+?); let verif_end_\w+ = (.+?); while verif_it_\w+ < verif_end_\w+$')
+
+
+def _t_r10(line, arg=None):
+    """R10: `for x in A..B {` whose body contains `continue` -> explicit counter loop; the header clauses follow,
+    then `{` and the prologue `let x = verif_it_x; verif_it_x += 1;` (increment first, so `continue` keeps its meaning)"""
+    m = R10_RE.match(line)
+    if not m:
+        return line
+    ind, x, a, b = m.groups()
+    return '%slet mut verif_it_%s = %s; let verif_end_%s = %s; while verif_it_%s < verif_end_%s' % (ind, x, a, x, b, x, x)
+
+
 def _t_forit(line, arg=None):
     """`for x in E {` -> `for x in verif_it: E {` (names the ghost iterator so that invariants can use verif_it.index)"""
     return re.sub(r'^(\s*)for (\w+) in (?!verif_it: )', r'\1for \2 in verif_it: ', line)
@@ -201,7 +215,7 @@ def _t_r7(line, arg=None):
     return '%slet verif_%s = [%s]; for verif_i_%s in 0..verif_%s.len()' % (ind, x, lst, x, x)
 
 
-TRANSFORMERS = [('Rit', _t_forit), ('Rfor', _t_forname), ('R8', _t_r8), ('Rsort', _t_sort), ('R7', _t_r7), ('R1', _t_r1), ('R1u', _t_unsafe), ('ret', _t_ret), ('brace', _t_brace)]
+TRANSFORMERS = [('R10', _t_r10), ('Rit', _t_forit), ('Rfor', _t_forname), ('R8', _t_r8), ('Rsort', _t_sort), ('R7', _t_r7), ('R1', _t_r1), ('R1u', _t_unsafe), ('ret', _t_ret), ('brace', _t_brace)]
 
 
 def infer_transform(pinned_line, ann_line):
@@ -237,6 +251,9 @@ def key(line):
     s = line.strip()
     if s == '{':
         return '<<brace>>'
+    m10 = R10_OUT.match(s)
+    if m10:
+        return 'for %s in %s..%s' % (m10.group(1), m10.group(2), m10.group(3))
     s = re.sub(r'^for (\w+) in verif_it: ', r'for \1 in ', s)
     s = re.sub(r'^for verif_it in ', 'for _ in ', s)
     m8 = re.match(r'^let verif_t = (.*); (\w+) = verif_t\.0; (\w+) = verif_t\.1;$', s)
